@@ -2091,7 +2091,7 @@ class FlagsEnum(Adapter):
             if isinstance(obj, dict):
                 flags = 0
                 for name,value in obj.items():
-                    if not name.startswith("_"): # assumes key is a string
+                    if name in self.flags or not name.startswith("_"): # assumes key is a string
                         if value:
                             flags |= self.flags[name] # KeyError
                 return flags
